@@ -299,6 +299,7 @@ class World:
         self.sleep_hook = None
         self.tx_hook = None
         self.close_hook = None
+        self.open_hook = None
         self.select_calls = 0
         self.max_select = 100000
 
@@ -365,6 +366,8 @@ class World:
         s = FakeSocket(self, len(self.socks) + 1, websocket=self.websocket)
         self.socks.append(s)
         self.log.append(("sockopen", s.conn))
+        if self.open_hook:
+            self.open_hook(s.conn)
         return s
 
     def _create_connection(self, addr, timeout=None, source_address=None, **kw):
